@@ -51,7 +51,7 @@ func loopCounter(l *Loop, tm *Termer) (bound *Term, phi *ssa.Phi, ok bool) {
 
 // C20 — experiment protocol.
 func C20(p *Prog, r *Run) {
-	r.Explanation = "Decided on Experiment.Execute by flag-sensitive path search over its SSA control-flow graph (two loops; the observer's nil-ness is tracked along each path): per trial iteration exactly one NewPopulation(start genome, options) before the generation loop, TrialRunStarted exactly once before the first generation, the trial recorded exactly once at e.Trials[run] on every non-error path, TrialRunFinished exactly once on every non-error path and never followed by EpochEvaluated; per generation iteration the context test precedes the evaluation, exactly one GenerationEvaluate whose error returns at once, NextEpoch only under !Solved, at most once, its error returned, append-then-EpochEvaluated exactly once in that order, under Solved the iteration leaves the loop; counters run 0,1,… below NumRuns / NumGenerations, tested in the effect-free loop condition (any spelling of the test; the loop condition may additionally test a flag that is raised only under generation.Solved, nothing else), a break out of the generation loop only under Solved; the record handed to the evaluator is allocated or reset in every generation so that its Solved flag is false at the call; the executor selection covers every EpochExecutorType constant and errors otherwise. Assumption: the observer and NextEpoch do not flip generation.Solved between its two reads. Not decided: what the evaluator, observer and executor do."
+	r.Explanation = "Decided on Experiment.Execute by flag-sensitive path search over its SSA control-flow graph (two loops; the observer's nil-ness is tracked along each path): per trial iteration exactly one NewPopulation(start genome, options) before the generation loop, TrialRunStarted exactly once before the first generation, the trial recorded exactly once at e.Trials[run] on every non-error path, TrialRunFinished exactly once on every non-error path and never followed by EpochEvaluated; per generation iteration the context test precedes the evaluation, exactly one GenerationEvaluate whose error returns at once, NextEpoch only under !Solved, at most once, its error returned, append-then-EpochEvaluated exactly once in that order, under Solved the iteration leaves the loop; counters run 0,1,… below NumRuns / NumGenerations, tested in the effect-free loop condition (any spelling of the test; the loop condition may additionally test a flag that is raised only under generation.Solved, nothing else), a break out of the generation loop only under Solved; the record handed to the evaluator is allocated or reset in every generation so that its Solved flag is false at the call; every notification is delivered to the observer parameter whenever it is non-nil and, when it is nil, is either not executed or addressed to a substitute whose method body is empty (decided per value that can be the receiver, on the edge that selects it); the errors of GenerationEvaluate / NextEpoch are the value returned on every path after the failing call (phis resolved along the path); the executor selection covers every EpochExecutorType constant and errors when all type tests fail (decided per way the operands of each return can be chosen). Assumption: the observer and NextEpoch do not flip generation.Solved between its two reads. Not decided: what the evaluator, observer and executor do."
 	ex := p.Func(PkgE, "Experiment.Execute")
 	r.Fn(FuncName(ex))
 	tm := NewTermer(ex)
@@ -253,12 +253,29 @@ func C20(p *Prog, r *Run) {
 			}
 		}
 		// observer absent: none of the notifications is reachable
+		// (per site, on the values that can be its receiver: the observer parameter must not be selected when it is nil -
+		// the `if observer != nil` guard or any equivalent; a substitute selected instead must ignore the notification)
+		// observer present: the notification goes to that observer, not to anything else
 		for _, name := range []string{"TrialRunStarted", "TrialRunFinished", "EpochEvaluated"} {
-			path := FindPath(p, PathQuery{Fn: ex, Target: isInvoke(name), IsNil: []ssa.Value{observer}, Explored: &r.PathsExplored})
-			if path != nil {
-				r.Bad("observer.nil."+name, p.Pos(ex.Pos()), name+" is reachable with a nil observer (nil dereference)", path...)
+			var nilBad, idBad *c20RecvVerdict
+			for _, s := range findAll(isInvoke(name)) {
+				v := c20CheckReceiver(p, ex, s.(ssa.CallInstruction), observer, name, &r.PathsExplored)
+				if !v.NilSafe && nilBad == nil {
+					nilBad = &v
+				}
+				if !v.Identity && idBad == nil {
+					idBad = &v
+				}
+			}
+			if nilBad != nil {
+				r.Bad("observer.nil."+name, p.Pos(ex.Pos()), nilBad.NilWhy, nilBad.NilPath...)
 			} else {
 				r.OK("observer.nil."+name, p.Pos(ex.Pos()), name+" is never called on a nil observer")
+			}
+			if idBad != nil {
+				r.Bad("observer.receiver."+name, p.Pos(ex.Pos()), idBad.IdWhy, idBad.IdPath...)
+			} else {
+				r.OK("observer.receiver."+name, p.Pos(ex.Pos()), name+" is delivered to the observer whenever one is present")
 			}
 		}
 		// counters
@@ -441,7 +458,16 @@ func C20(p *Prog, r *Run) {
 						retOK = true
 					}
 				}
-				r.Check(retOK, "generation."+kind.name+".error-returned", p.Pos(s.Pos()), "the error is returned to the caller", "the error of "+kind.name+" is not returned to the caller")
+				whyNot := ""
+				if !retOK {
+					// the error may reach the return through a result variable (phi): decide it on the paths after the call -
+					// every path on which the error is non-nil ends in a Return that returns this very value
+					retOK, whyNot = c20ErrReturned(p, s, errV)
+					if whyNot != "" {
+						whyNot = ": " + whyNot
+					}
+				}
+				r.Check(retOK, "generation."+kind.name+".error-returned", p.Pos(s.Pos()), "the error is returned to the caller", "the error of "+kind.name+" is not returned to the caller"+whyNot)
 			}
 		}
 		// NextEpoch only under !Solved, at most once
@@ -520,16 +546,27 @@ func C20(p *Prog, r *Run) {
 		consts := p.ConstsOfType(PkgT, "EpochExecutorType")
 		covered := map[string]bool{}
 		errDefault := false
+		// every way a Return can get its operands is looked at separately (a single `return executor, err` over named
+		// results is one leaf per switch case; a `return x, nil` inside a case is its own single leaf)
+		var leaves []c20RetLeaf
 		for _, b := range sel.Blocks {
-			ret, ok := b.Instrs[len(b.Instrs)-1].(*ssa.Return)
-			if !ok {
-				continue
+			if ret, ok := b.Instrs[len(b.Instrs)-1].(*ssa.Return); ok && len(ret.Results) == 2 {
+				leaves = append(leaves, c20ReturnLeaves(ret)...)
 			}
-			v, e := ts.Of(ret.Results[0]), ts.Of(ret.Results[1])
+		}
+		for _, lf := range leaves {
+			ret := lf.Ret
+			v, e := ts.Of(lf.Vals[0]), ts.Of(lf.Vals[1])
 			matched := ""
-			for _, g := range Guards(b) {
+			typeTests, refuted := 0, 0
+			for _, g := range lf.Guards {
 				gt := ts.Of(g.Cond)
-				if gt.Op == "bin" && gt.Name == "==" && g.True && strings.Contains(gt.String(), ".EpochExecutorType") {
+				if gt.Op == "bin" && gt.Name == "==" && strings.Contains(gt.String(), ".EpochExecutorType") {
+					typeTests++
+					if !g.True {
+						refuted++
+						continue
+					}
 					for _, c := range consts {
 						if strings.Contains(gt.String(), c.Val().ExactString()) {
 							matched = c.Name()
@@ -543,8 +580,9 @@ func C20(p *Prog, r *Run) {
 				r.Check(okT, "executor."+matched, p.Pos(ret.Pos()), matched+" selects "+want, fmt.Sprintf("%s selects %s (error %s), expected a %s", matched, v, e, want))
 				covered[matched] = true
 			} else if e.Op != "nil" && v.Op == "nil" {
-				// error return: default or missing options
-				if len(Guards(b)) > 0 {
+				// error return on the way on which the tests of the executor type failed (the missing-options return is
+				// not guarded by any of them and does not count)
+				if typeTests > 0 && refuted == typeTests {
 					errDefault = true
 				}
 			}
